@@ -283,10 +283,13 @@ def bucket(deg):
     return "deg0" if deg == 0 else "deg1" if deg == 1 else "deg2-3" if deg <= 3 else "deg>=4"
 
 
-def check_area(out, sub, case, grid, area, rng, info, tag, limits, obs=None):
-    """all clauses of the statement for one visited area; returns the observed (points, weights) or None"""
+def check_area(out, sub, case, grid, area, rng, info, tag, limits, obs=None, flags=None):
+    """all clauses of the statement for one visited area; returns the observed (points, weights) or None.
+    flags = the boundary flags (one per dimension) that are in force on the object: the constructor's flag unless
+    the harness changed them with set_boundaries"""
     fam, p, d = case["family"], case.get("p", 0), case["d"]
-    boundary = True if fam == "gauss" else case["boundary"]
+    bfl = [True] * d if fam == "gauss" else ([bool(case["boundary"])] * d if flags is None else [bool(x) for x in flags])
+    boundary = all(bfl)
     lv = list(area.level)
     modified = bool(case.get("modified_basis", False))
     # GaussLegendreGrid(normalize=True) documents weights that sum to 1: every closed form is divided by the volume
@@ -294,11 +297,12 @@ def check_area(out, sub, case, grid, area, rng, info, tag, limits, obs=None):
     norm = vol / area.volume
     # modified basis (boundary=False): the weight of a dropped border point is redistributed by extrapolation, the
     # grid keeps full mass and degree 1 as long as it has a point at all
-    has_points = not any(area.level[k] == 0 and area.touch_a[k] and area.touch_b[k] for k in range(d))
+    has_points = not any((not bfl[k]) and area.level[k] == 0 and area.touch_a[k] and area.touch_b[k] for k in range(d))
+    off_touches = any((not bfl[k]) and (area.touch_a[k] or area.touch_b[k]) for k in range(d))
     # integrate() must set the area up itself (Integration.evaluate_area calls it without setCurrentArea): call it
     # while the grid still sits on the previous area (or on none).  Integrand 1 + sum_d c_d t_d, degree 1 <= nominal
     # degree of every family as soon as n >= 2, which holds at every level when no point is dropped.
-    if boundary or not area.touches or (modified and has_points):
+    if not off_touches or (modified and has_points):
         if not (fam == "bspline" and not boundary):      # (interior boxes of boundary-off B-splines: F-C08-b)
             from sparseSpACE.Function import Function
             c = rng.uniform(-1.0, 1.0, size=d)
@@ -335,7 +339,7 @@ def check_area(out, sub, case, grid, area, rng, info, tag, limits, obs=None):
     # which global boundary faces lost their point (only possible with boundary=False; Gauss has no end points)
     dropped = [(False, False)] * d
     if fam in ("trapezoidal", "bspline") and not boundary:
-        dropped = [(bool(area.touch_a[k]), bool(area.touch_b[k])) for k in range(d)]
+        dropped = [(bool(area.touch_a[k]) and not bfl[k], bool(area.touch_b[k]) and not bfl[k]) for k in range(d)]
     if npts == 0:
         out.cls("empty-grid")
     pts = np.array(points, dtype=float).reshape(npts, d)
@@ -375,7 +379,7 @@ def check_area(out, sub, case, grid, area, rng, info, tag, limits, obs=None):
         missing = []
         for k in range(d):
             for idx, on_global in ((0, area.touch_a[k]), (announced[k] - 1, area.touch_b[k])):
-                if announced[k] >= 1 and not on_global and grid.get_basis(k, idx) is None:
+                if not bfl[k] and announced[k] >= 1 and not on_global and grid.get_basis(k, idx) is None:
                     missing.append((k, idx))
         if missing:
             out.bad("%s/basis/bspline-boundary-off-no-basis-at-interior-subbox-end" % sub,
@@ -485,15 +489,17 @@ def check_area(out, sub, case, grid, area, rng, info, tag, limits, obs=None):
     return points, weights
 
 
-def compare_with_trapezoid_model(out, sub, case, area, points, weights, boundary, tag):
-    """points and weights against the composite trapezoidal rule minus the points on the *global* boundary"""
+def compare_with_trapezoid_model(out, sub, case, area, points, weights, flags, tag):
+    """points and weights against the composite trapezoidal rule minus the points on the *global* boundary (in the
+    dimensions whose boundary flag is off)"""
     d = case["d"]
+    boundary = all(flags)
     obs = np.array(points, dtype=float).reshape(len(points), d)
     model_x, model_w = [], []
     midpoint_dims = []
     for k in range(d):
-        dl = (not boundary) and area.touch_a[k]
-        dr = (not boundary) and area.touch_b[k]
+        dl = (not flags[k]) and area.touch_a[k]
+        dr = (not flags[k]) and area.touch_b[k]
         x, w = trapezoid_model_1d(area.start[k], area.end[k], area.level[k], dl, dr)
         ox = np.unique(obs[:, k]) if len(obs) else np.zeros(0)
         scale = abs(area.start[k]) + abs(area.end[k])
@@ -507,7 +513,7 @@ def compare_with_trapezoid_model(out, sub, case, area, points, weights, boundary
                 x = np.array([(area.start[k] + area.end[k]) / 2.0])
                 w = np.array([area.end[k] - area.start[k]])
             else:
-                if any(abs(c - ga) <= TOL_MODEL * scale or abs(c - gb) <= TOL_MODEL * scale for c in ox) and not boundary:
+                if any(abs(c - ga) <= TOL_MODEL * scale or abs(c - gb) <= TOL_MODEL * scale for c in ox) and not flags[k]:
                     cause = "global-boundary-point-kept"
                 elif len(ox) < len(x):
                     cause = "non-boundary-point-dropped"
@@ -517,13 +523,13 @@ def compare_with_trapezoid_model(out, sub, case, area, points, weights, boundary
                     cause = "coordinates-differ"
                 out.bad("%s/points/%s" % (sub, cause),
                         "%s: dim %d level %d [%s,%s] of global [%s,%s] boundary=%s: coordinates %s, model %s"
-                        % (tag, k, area.level[k], area.start[k], area.end[k], ga, gb, boundary, ox.tolist(), x.tolist()))
+                        % (tag, k, area.level[k], area.start[k], area.end[k], ga, gb, flags[k], ox.tolist(), x.tolist()))
                 return
         model_x.append(x)
         model_w.append(w)
     if midpoint_dims:
         out.bad("%s/points/level0-one-sided-single-point-is-midpoint-with-full-length-weight" % sub,
-                "%s: TrapezoidalGrid(boundary=False) level 0 in dim(s) %s, sub-interval touches the global boundary on one "
+                "%s: TrapezoidalGrid, boundary flag off and level 0 in dim(s) %s, sub-interval touches the global boundary on one "
                 "side: boundary-on points are the two corners; expected the remaining corner with weight length/2, "
                 "observed the mid point; start=%s end=%s level=%s points=%s weights=%s"
                 % (tag, midpoint_dims, area.start.tolist(), area.end.tolist(), area.level, points[:4], np.asarray(weights).tolist()[:4]))
@@ -542,7 +548,7 @@ def compare_with_trapezoid_model(out, sub, case, area, points, weights, boundary
         if abs(wv - want) > TOL_MODEL * area.volume:
             out.bad("%s/weights/%s" % (sub, "remaining-weight-changed" if not boundary else "differs-from-composite-trapezoidal"),
                     "%s: weight of %s is %.17g, model %.17g; start=%s end=%s level=%s boundary=%s"
-                    % (tag, pt.tolist(), wv, want, area.start.tolist(), area.end.tolist(), area.level, boundary))
+                    % (tag, pt.tolist(), wv, want, area.start.tolist(), area.end.tolist(), area.level, list(flags)))
             return
     if mw:
         out.bad("%s/points/not-a-tensor-grid" % sub, "%s: %d model points missing" % (tag, len(mw)))
@@ -591,9 +597,50 @@ def issue_invalid_request(grid, case, area, inv):
     return None
 
 
+FLAG_KINDS = ("repeat", "same", "on", "off", "flip", "mixed")
+
+
+def target_flags(entry, cur, d):
+    """the boundary flags the harness expects on the object after the entry's set_boundaries call"""
+    kind = entry["to"]
+    if kind in ("repeat", "same"):
+        return list(cur)
+    if kind == "on":
+        return [True] * d
+    if kind == "off":
+        return [False] * d
+    if kind == "flip":
+        return [not x for x in cur]
+    if kind == "mixed":
+        return [bool(x) for x in entry["mixed"][:d]]
+    raise ValueError(kind)
+
+
+def fresh_grid(grid_factory, case, flags):
+    """a new grid object that carries the given boundary flags from its construction on: the family's constructor with
+    boundary=<flag> when all dimensions agree; per-dimension flags: MixedGrid over freshly constructed
+    TrapezoidalGrid1D(boundary=flag_k) (B-spline: constructor + set_boundaries before the first request)"""
+    d = case["d"]
+    flags = [bool(x) for x in flags]
+    if case["family"] == "gauss" or flags == [bool(case["boundary"])] * d:
+        return grid_factory(case)
+    if len(set(flags)) == 1:
+        return grid_factory(dict(case, boundary=flags[0]))
+    if case["family"] == "trapezoidal":
+        from sparseSpACE import Grid as G
+        a = np.array(case["a"], dtype=float)
+        b = np.array(case["b"], dtype=float)
+        integ = case.get("integrator", "old" if case.get("old_integrator") else None)
+        return G.MixedGrid(a, b, [G.TrapezoidalGrid1D(a=a[k], b=b[k], boundary=flags[k]) for k in range(d)],
+                           integrator=integ)
+    g = grid_factory(case)
+    g.set_boundaries(list(flags))
+    return g
+
+
 def run_sequence(case, sub, grid_factory, invalid, reference=None):
-    """drive one grid object through the areas of the case (and the invalid requests in between, if any).
-    reference = (signatures, observations) of a fresh object that only got the valid requests."""
+    """drive one grid object through the areas of the case (the invalid requests and the flag program in between, if
+    any).  reference = (signatures, observations) of a fresh object that only got the valid requests."""
     out = Outcome()
     fam, d = case["family"], case["d"]
     rng = np.random.default_rng(case["rng"])
@@ -603,28 +650,23 @@ def run_sequence(case, sub, grid_factory, invalid, reference=None):
     info = {}
     nt = False
     observations = []
-    rejected = False
-    for i, spec in enumerate(case["areas"]):
-        area = Area(case, spec)
-        tag = "area %d" % i
-        for inv in invalid:
-            if inv["before"] % len(case["areas"]) == i:
-                exc = issue_invalid_request(grid, case, area, inv)
-                if exc is None:
-                    out.cls("invalid-request-silently-accepted:" + inv["kind"])
-                else:
-                    rejected = True
-                    out.cls("rejected-request-in-between", "rejected-kind=" + inv["kind"],
-                            "rejected-call=" + ("setCurrentArea" if inv["call"] == "set" else "integrate"))
+    state = dict(rejected=False, reused=False)
+    flagprog = case.get("flagprog") or []
+    cur = [bool(case["boundary"])] * d            # the harness's model of the flags in force
+    history = []                                  # what was done to the object (for the messages)
+
+    def visit(area, tag, flags):
+        """one request for an area on the shared object with all clauses; returns the observation"""
+        rejected = state["rejected"]
         nviol = len(out.violations)
         obs = {}
+        vi = len(observations)
         observations.append(obs)
         got = check_area(out, sub, case, grid, area, rng, info, tag + (" (after a rejected request)" if rejected else ""),
-                         limits, obs)
+                         limits, obs, flags)
         if fam == "trapezoidal" and got is not None and not case.get("modified_basis"):
-            boundary = case["boundary"]
-            compare_with_trapezoid_model(out, sub, case, area, got[0], got[1], boundary, tag)
-            if not boundary:
+            compare_with_trapezoid_model(out, sub, case, area, got[0], got[1], flags, tag)
+            if not all(flags):
                 # the statement's wording: boundary-off == boundary-on minus the points on the global boundary
                 on = grid_factory(case, True)
                 on.setCurrentArea(area.start.copy(), area.end.copy(), list(area.level))
@@ -632,12 +674,12 @@ def run_sequence(case, sub, grid_factory, invalid, reference=None):
                 keep = []
                 for pt, wv in zip(p_on, np.asarray(w_on, dtype=float).reshape(-1)):
                     pt = tuple(float(c) for c in pt)
-                    if any((area.touch_a[k] and pt[k] == area.start[k]) or (area.touch_b[k] and pt[k] == area.end[k])
-                           for k in range(d)):
+                    if any((not flags[k]) and ((area.touch_a[k] and pt[k] == area.start[k])
+                                               or (area.touch_b[k] and pt[k] == area.end[k])) for k in range(d)):
                         continue
                     keep.append(pt + (float(wv),))
                 off = [tuple(float(c) for c in pt) + (float(wv),) for pt, wv in zip(got[0], got[1])]
-                midpoint = any(s.startswith(sub + "/points/level0-one-sided") for s, _ in out.violations)
+                midpoint = any(s.startswith(sub + "/points/level0-one-sided") for s, _ in out.violations[nviol:])
                 if not midpoint:        # (that deviation is already reported with its own cause)
                     # both are tensor grids: lexicographic order pairs them; coordinates may differ in the last bit
                     # ((s+e)/2 versus linspace), so compare with TOL_MODEL instead of bitwise
@@ -645,9 +687,9 @@ def run_sequence(case, sub, grid_factory, invalid, reference=None):
                     off.sort()
                     scale = np.concatenate([np.abs(area.start) + np.abs(area.end), [area.volume]])
                     if len(keep) != len(off):
-                        out.bad("%s/on-off/point-sets-differ" % sub, "%s: %d points with boundary=False, %d boundary=True points "
+                        out.bad("%s/on-off/point-sets-differ" % sub, "%s: %d points with boundary flags %s, %d boundary=True points "
                                 "off the global boundary; start=%s end=%s level=%s"
-                                % (tag, len(off), len(keep), area.start.tolist(), area.end.tolist(), area.level))
+                                % (tag, len(off), list(flags), len(keep), area.start.tolist(), area.end.tolist(), area.level))
                     elif len(off):
                         diff = np.abs(np.array(off) - np.array(keep)) / scale
                         if diff[:, :d].max() > TOL_MODEL:
@@ -656,10 +698,34 @@ def run_sequence(case, sub, grid_factory, invalid, reference=None):
                         elif diff[:, d].max() > TOL_MODEL:
                             out.bad("%s/on-off/remaining-weight-changed" % sub, "%s: start=%s end=%s level=%s"
                                     % (tag, area.start.tolist(), area.end.tolist(), area.level))
+        if state["reused"] and obs:
+            # one object, public state changed / requests repeated: it must answer exactly like a new object that was
+            # constructed with the flags now in force and gets this one request
+            fresh = fresh_grid(grid_factory, case, flags)
+            fresh.setCurrentArea(area.start.copy(), area.end.copy(), list(area.level))
+            fp, fw = fresh.get_points_and_weights()
+            fp = [tuple(float(c) for c in pt) for pt in fp]
+            fw = np.asarray(fw, dtype=float).reshape(-1)
+            fa = [int(x) for x in fresh.levelToNumPoints(list(area.level))]
+            what = None
+            if obs["announced"] != fa:
+                what = "announced-numbers"
+            elif obs["points"] != fp:
+                what = "points"
+            elif not np.array_equal(obs["weights"], fw):
+                what = "weights"
+            if what:
+                out.bad("%s/state/%s-%s-differ-from-fresh-grid/reused-object" % (sub, fam, what),
+                        "%s: start=%s end=%s level=%s flags in force %s: announced %s (fresh object %s), %d points (fresh %d), "
+                        "first points %s (fresh %s), first weights %s (fresh %s), get_boundaries()=%s; done to the object "
+                        "before: %s"
+                        % (tag, area.start.tolist(), area.end.tolist(), area.level, list(flags), obs["announced"], fa,
+                           len(obs["points"]), len(fp), obs["points"][:3], fp[:3], obs["weights"][:3].tolist(),
+                           fw[:3].tolist(), [bool(x) for x in grid.get_boundaries()], history[-6:]))
         if rejected and reference is not None:
             # the object must behave exactly like a fresh one that only got the valid requests
             ref_sigs, ref_obs = reference
-            ro = ref_obs[i] if i < len(ref_obs) else {}
+            ro = ref_obs[vi] if vi < len(ref_obs) else {}
             if obs and ro:
                 what = None
                 if obs["announced"] != ro["announced"]:
@@ -672,7 +738,7 @@ def run_sequence(case, sub, grid_factory, invalid, reference=None):
                     out.bad("%s/state/%s-%s-differ-from-fresh-grid/after-a-rejected-request" % (sub, fam, what),
                             "%s: start=%s end=%s level=%s boundary=%s: announced %s (fresh object %s), %d points (fresh %d), "
                             "first points %s (fresh %s), get_boundaries()=%s; invalid requests issued before: %s"
-                            % (tag, area.start.tolist(), area.end.tolist(), area.level, case["boundary"], obs["announced"],
+                            % (tag, area.start.tolist(), area.end.tolist(), area.level, list(flags), obs["announced"],
                                ro["announced"], len(obs["points"]), len(ro["points"]), obs["points"][:3], ro["points"][:3],
                                [bool(x) for x in grid.get_boundaries()], invalid))
             # a clause that fails here but not on the fresh object is caused by the rejected request
@@ -680,6 +746,65 @@ def run_sequence(case, sub, grid_factory, invalid, reference=None):
                 sig, msg = out.violations[j]
                 if sig not in ref_sigs and not sig.endswith("/after-a-rejected-request"):
                     out.violations[j] = (sig + "/after-a-rejected-request", msg)
+        history.append("request(start=%s, end=%s, level=%s)" % (area.start.tolist(), area.end.tolist(), area.level))
+        return obs
+
+    def set_flags(values, form):
+        arg = np.array(values, dtype=bool) if form == "array" else [bool(x) for x in values]
+        grid.set_boundaries(arg)
+        history.append("set_boundaries(%s)" % [bool(x) for x in values])
+
+    for i, spec in enumerate(case["areas"]):
+        area = Area(case, spec)
+        tag = "area %d" % i
+        for inv in invalid:
+            if inv["before"] % len(case["areas"]) == i:
+                exc = issue_invalid_request(grid, case, area, inv)
+                history.append("rejected request" if exc else "accepted odd request")
+                if exc is None:
+                    out.cls("invalid-request-silently-accepted:" + inv["kind"])
+                else:
+                    state["rejected"] = True
+                    out.cls("rejected-request-in-between", "rejected-kind=" + inv["kind"],
+                            "rejected-call=" + ("setCurrentArea" if inv["call"] == "set" else "integrate"))
+        visit(area, tag, cur)
+        # public state changes between two requests for this same area and level vector on this same object
+        for e in flagprog:
+            if e["after"] % len(case["areas"]) != i:
+                continue
+            state["reused"] = True
+            kind = e["to"]
+            old = list(cur)
+            new = target_flags(e, cur, d)
+            saved = grid.get_boundaries()                   # (what the library's own sequence keeps for the restore)
+            if kind == "same":
+                set_flags(saved, e.get("form", "array"))    # get_boundaries / set_boundaries round trip
+            elif kind != "repeat":
+                set_flags(new, e.get("form", "list"))
+            cur = new
+            changed = [k for k in range(d) if old[k] != new[k]]
+            out.cls("reused-object", "reused-object:to=" + kind)
+            if kind not in ("repeat",) and e.get("form") == "array":
+                out.cls("set_boundaries-argument=numpy-bool-array")
+            if changed:
+                out.cls("flags-really-changed")
+                if len(set(new)) > 1:
+                    out.cls("flags-differ-per-dimension")
+                if any(area.touch_a[k] or area.touch_b[k] for k in changed):
+                    # (the only situation in which the rule of the area differs between the two flag settings)
+                    out.cls("same-area-re-requested-after-a-flag-change-in-a-dimension-that-touches-the-border")
+                    if e.get("between") is None:
+                        out.cls("...and-no-other-area-in-between")
+            if e.get("between") is not None:
+                out.cls("reused-object:other-area-requested-in-between")
+                visit(Area(case, e["between"]), tag + " [other area under flags %s]" % new, cur)
+            visit(area, tag + " [same area and level vector again, flags %s -> %s]" % (old, new), cur)
+            if e.get("restore"):
+                out.cls("reused-object:flags-restored-and-same-area-requested-a-third-time")
+                if kind != "repeat":
+                    set_flags(saved, "array")
+                cur = old
+                visit(area, tag + " [same area and level vector, flags restored to %s]" % old, cur)
         # classes / non-triviality
         where = "whole-domain" if not area.proper else ("touching-boundary" if area.touches else "interior")
         out.cls(where)
@@ -801,7 +926,10 @@ def _cap_levels(lv, npoints, cap):
     return lv
 
 
-def case_strategy(families, tier, boundary_choices, point_cap):
+def case_strategy(families, tier, boundary_choices, point_cap, switchable=(), prog_odds=(False, False, False, True),
+                  force_prog_for_boundary_on=False):
+    """switchable: families whose boundary flags are really changed on the re-used object (the others only get
+    repeated requests / set_boundaries calls that leave the flags as they are)"""
     @st.composite
     def s(draw):
         fam = draw(st.sampled_from(families))
@@ -828,14 +956,18 @@ def case_strategy(families, tier, boundary_choices, point_cap):
         # B-spline with boundary off: half of the cases stay on the whole domain (the only areas behind F-C08-b)
         whole = fam == "bspline" and not boundary and draw(st.sampled_from([True, True, True, False] if modified
                                                                            else [True, False]))
-        for _ in range(nareas):
+
+        def one_area():
             path = [[] if whole else draw(_path()) for _ in range(d)]
             lv = [draw(levels) for _ in range(d)]
             if fam == "leja":
                 lv = _cap_levels(lv, lambda l: 2 if l == 0 else 2 * l + 1, point_cap)
             else:
                 lv = _cap_levels(lv, lambda l: 2 ** l + 1, point_cap)
-            areas.append(dict(path=path, lv=lv))
+            return dict(path=path, lv=lv)
+
+        for _ in range(nareas):
+            areas.append(one_area())
         case = dict(family=fam, p=p, boundary=boundary, d=d, a=a, b=b, scale=scale, areas=areas,
                     rng=draw(st.integers(0, 2 ** 31 - 1)))
         if fam in NODAL and fam != "gauss":
@@ -851,6 +983,30 @@ def case_strategy(families, tier, boundary_choices, point_cap):
             case["invalid"] = [dict(before=draw(st.integers(0, nareas - 1)), kind=draw(st.sampled_from(kinds)),
                                     dim=draw(st.integers(0, 5)), call=draw(st.sampled_from(["set", "int"])))
                                for _ in range(draw(st.sampled_from([1, 1, 2])))]
+        # one object, public state changed between two requests for the same area and level vector: the area is
+        # requested again after set_boundaries(...) (really other flags / the same flags / the get_boundaries() round
+        # trip) or without any call in between, optionally with another area in between and with the flags restored
+        # (the library's own save / switch on / set area / restore sequence) and the area requested a third time
+        force = force_prog_for_boundary_on and boundary is True
+        if force or draw(st.sampled_from(list(prog_odds))):
+            real = fam in switchable and not modified
+            if real:
+                kinds = ["flip", "flip", "flip", "on", "off", "same", "repeat"] + (["mixed", "mixed"] if d >= 2 else [])
+            else:
+                kinds = ["same", "repeat"] + (["on"] if boundary and fam != "gauss" else [])
+            prog = []
+            for j in range(draw(st.sampled_from([1, 1, 2]))):
+                kind = draw(st.sampled_from(kinds))
+                if force and j == 0:
+                    kind = draw(st.sampled_from(["off", "flip"] + (["mixed"] if d >= 2 else [])))
+                e = dict(after=draw(st.integers(0, nareas - 1)), to=kind, restore=draw(st.sampled_from([False, True])),
+                         form=draw(st.sampled_from(["list", "array"])))
+                if kind == "mixed":
+                    e["mixed"] = [draw(st.sampled_from([False, True])) for _ in range(d)]
+                if draw(st.sampled_from([False, False, True])):
+                    e["between"] = one_area()
+                prog.append(e)
+            case["flagprog"] = prog
         return case
     return s()
 
@@ -861,11 +1017,13 @@ def nodal_strategy(tier):
 
 def hier_strategy(tier):
     return case_strategy(["lagrange", "bspline", "bspline"], tier, {"bspline": [True, True, False, "modified"]},
-                         700 if tier == "quick" else 1500)
+                         700 if tier == "quick" else 1500, switchable=("bspline",))
 
 
 def trap_boundary_strategy(tier):
-    return case_strategy(["trapezoidal"], tier, {"trapezoidal": [False, False, "modified"]}, 2500 if tier == "quick" else 5000)
+    return case_strategy(["trapezoidal"], tier, {"trapezoidal": [False, False, False, "modified", True]},
+                         2500 if tier == "quick" else 5000, switchable=("trapezoidal",), prog_odds=(False, True),
+                         force_prog_for_boundary_on=True)
 
 
 def nodal_fixed():
@@ -877,6 +1035,11 @@ def nodal_fixed():
     # modified basis, sub-box touching the upper border only, level 1 (and the mirrored one)
     res.append(dict(family="trapezoidal", p=0, boundary=False, modified_basis=True, d=2, a=[1.0, 0.0], b=[3.0, 1.0],
                     areas=[dict(path=[[1], [0]], lv=[1, 1]), dict(path=[[0, 1], []], lv=[2, 1])], rng=6))
+    for fam in ("simpson", "leja", "gauss"):
+        res.append(dict(family=fam, p=0, boundary=True, d=2, a=[0.0, 1.0], b=[1.0, 3.0],
+                        areas=[dict(path=[[0], []], lv=[2, 1])], rng=12,
+                        flagprog=[dict(after=0, to="same", restore=True, form="array"),
+                                  dict(after=0, to="repeat", restore=False, between=dict(path=[[1], [0]], lv=[1, 2]))]))
     base = dict(p=0, d=1, a=[0.0], b=[1.0], areas=[dict(path=[[]], lv=[2])], rng=0)
     res.append(dict(base, family="trapezoidal", boundary=True, modified_basis=True,
                     expect_unsupported="TrapezoidalGrid(boundary=True, modified_basis=True)"))
@@ -895,6 +1058,9 @@ def hier_fixed():
                     areas=[dict(path=[[], []], lv=[3, 2])], rng=3))
     res.append(dict(family="bspline", p=3, boundary=False, modified_basis=True, d=2, a=[1.0, 0.0], b=[3.0, 1.0],
                     areas=[dict(path=[[], []], lv=[3, 2]), dict(path=[[], []], lv=[1, 3])], rng=7))
+    res.append(dict(family="bspline", p=3, boundary=True, d=2, a=[0.0, 0.0], b=[1.0, 2.0],
+                    areas=[dict(path=[[], []], lv=[3, 2])], rng=11,
+                    flagprog=[dict(after=0, to="off", restore=True, form="list")]))
     base = dict(d=1, a=[0.0], b=[1.0], areas=[dict(path=[[]], lv=[2])], rng=0)
     res.append(dict(base, family="bspline", p=2, boundary=True, expect_unsupported="BSplineGrid(p=2) (even degree)"))
     res.append(dict(base, family="bspline", p=3, boundary=True, modified_basis=True,
@@ -910,7 +1076,17 @@ def trap_fixed():
     return [dict(family="trapezoidal", p=0, boundary=False, d=2, a=[0.0, -1.0], b=[1.0, 2.0],
                  areas=[dict(path=[[0], [1, 1]], lv=[2, 1]), dict(path=[[1, 0], []], lv=[1, 3])], rng=4),
             dict(family="trapezoidal", p=0, boundary=False, modified_basis=True, d=1, a=[1.0], b=[3.0],
-                 areas=[dict(path=[[1]], lv=[1]), dict(path=[[0]], lv=[1]), dict(path=[[]], lv=[2])], rng=8)]
+                 areas=[dict(path=[[1]], lv=[1]), dict(path=[[0]], lv=[1]), dict(path=[[]], lv=[2])], rng=8),
+            # one object: the library's own sequence (save the flags, switch the boundary points on, set the area,
+            # restore) on a boundary=False grid, and boundary points switched off on a boundary=True grid
+            dict(family="trapezoidal", p=0, boundary=False, d=2, a=[-1.0, 0.5], b=[2.0, 3.0],
+                 areas=[dict(path=[[1], [0]], lv=[3, 1]), dict(path=[[0], []], lv=[2, 3])], rng=9,
+                 flagprog=[dict(after=0, to="on", restore=True, form="list"),
+                           dict(after=1, to="mixed", mixed=[False, True], restore=False, form="array")]),
+            dict(family="trapezoidal", p=0, boundary=True, d=2, a=[-1.0, 0.5], b=[2.0, 3.0],
+                 areas=[dict(path=[[0], []], lv=[2, 3])], rng=10,
+                 flagprog=[dict(after=0, to="off", restore=True, form="list",
+                                between=dict(path=[[1], [1]], lv=[1, 2]))])]
 
 
 # ----------------------------------------------------------------------------------------------------------------
@@ -1008,6 +1184,36 @@ def selftest():
     assert not run_generic(c6, "trap_boundary").violations
     sigs = [s for s, _ in run_generic(c6, "trap_boundary", swapped).violations]
     assert any("/exactness/trapezoidal-modified-deg1" in s for s in sigs) and not any("/wsum/" in s for s in sigs), sigs
+
+    # (7) a re-used object whose set_boundaries does not reach the last dimension must be flagged (and only the
+    # requests after the flag change); the same flag program on the real library must be clean, also with
+    # per-dimension flags, the get_boundaries round trip, an area in between and the restore
+    def deaf(case, boundary=None):
+        g = make_grid(case, boundary)
+        orig = g.set_boundaries
+
+        def patched(boundaries):
+            b = [bool(x) for x in boundaries]
+            orig(b[:-1] + [bool(g.grids[-1].boundary)])
+        g.set_boundaries = patched
+        return g
+
+    c7 = dict(trap_fixed()[0])
+    c7["flagprog"] = [dict(after=0, to="flip", restore=True, form="list"),
+                      dict(after=1, to="mixed", mixed=[True, False], restore=False, form="array",
+                           between=dict(path=[[1], [0]], lv=[1, 2])),
+                      dict(after=1, to="same", restore=True, form="array"), dict(after=1, to="repeat", restore=False)]
+    o = run_generic(c7, "trap_boundary")
+    assert not o.violations, o.violations
+    assert "same-area-re-requested-after-a-flag-change-in-a-dimension-that-touches-the-border" in o.classes
+    sigs = [s for s, _ in run_generic(c7, "trap_boundary", deaf).violations]
+    assert any(s.endswith("/reused-object") for s in sigs) and any("/count/" in s or "/points/" in s for s in sigs), sigs
+    c8 = dict(trap_fixed()[0], boundary=True)
+    c8["flagprog"] = [dict(after=0, to="off", restore=True, form="array")]
+    assert not run_generic(c8, "trap_boundary").violations
+    assert run_generic(c8, "trap_boundary", deaf).violations
+    assert fresh_grid(make_grid, c8, [True, False]).get_boundaries().tolist() == [True, False]
+    assert fresh_grid(make_grid, c8, [False, False]).get_boundaries().tolist() == [False, False]
 
     c5 = dict(trap_fixed()[0])
     c5["invalid"] = [dict(before=1, kind="none", dim=1, call="int")]
